@@ -905,8 +905,15 @@ def r10_5(ctx, classes: Dict[str, LruClass]) -> None:
         m = b.methods.get(mname)
         if m is None:
             raise AnalysisError(f"LRUAsyncBoundCallable.{mname} missing (anchor moved)")
+        from .common import inline_locals
+        mcfg = cfg_of(m)
+
+        def callee_text(call) -> str:
+            # (the callee may be bound to a local first: ``discard = self._lru.cache_discard``)
+            at = next((x for x in mcfg.nodes if x.ast is not None and not x.tag and any(y is call for y in ast.walk(x.ast))), None)
+            return norm(inline_locals(ctx, m, mcfg, at, call.func)) if at is not None else norm(call.func)
         calls = [n for n in own_nodes(m.node) if isinstance(n, ast.Call) and
-                 (norm(n.func) == f"self.{F_LRU}" if attr is None else norm(n.func) == f"self.{F_LRU}.{attr}")]
+                 (callee_text(n) == f"self.{F_LRU}" if attr is None else callee_text(n) == f"self.{F_LRU}.{attr}")]
         sig = [norm(a) for a in calls[0].args] + [f"**{norm(k.value)}" for k in calls[0].keywords if k.arg is None] if calls else None
         sigs[mname] = sig
         ctx.check(bool(sig) and sig[0] == f"self.{F_SELF}", "R10.5", m, mname,
